@@ -46,6 +46,20 @@ theorem C02_py_roundtrip (t : Ty) (v : Val) (e : Endian) (b : Bytes)
   rw [hc] at he; injection he with he; subst he
   exact ⟨Py.decode_encode t v e hf hp hv ha hg hG, hc⟩
 
+/-- the wire format is unambiguous: two values of one type with the same canonical encoding are the
+    same value (decode is a function) -/
+theorem C02_encoding_injective (t : Ty) (v v' : Val) (e : Endian)
+    (hf : Accept.front t = true) (hp : Accept.pyRt t = true)
+    (hv : hasType t v = true) (ha : WF.agreeTy t v = true) (hg : Spec.galTy t v = true) (hG : WF.guardTy t v = true)
+    (hv' : hasType t v' = true) (ha' : WF.agreeTy t v' = true) (hg' : Spec.galTy t v' = true) (hG' : WF.guardTy t v' = true)
+    (h : Spec.enc t v e = Spec.enc t v' e) : v = v' := by
+  have h1 := Py.decode_encode t v e hf hp hv ha hg hG
+  have h2 := Py.decode_encode t v' e hf hp hv' ha' hg' hG'
+  rw [h] at h1
+  rw [h1] at h2
+  injection h2 with h2
+  injection h2 with h2 _
+
 /-- non-vacuity: the example of C01 (shared shifted counter, nested dynamic struct, optional,
     limited array, union) satisfies every hypothesis -/
 example : Accept.front C01.exT = true ∧ Accept.pyRt C01.exT = true ∧ hasType C01.exT C01.exV = true ∧
